@@ -484,9 +484,15 @@ def _hist_chunk(chunk, seed):
 
 def replay_case(space, case, seed):
     if space.name == 'world_histories':
-        return replay_history(_ISYS, case['init'], _c02.build_world, case['ops'], seed, 'world_histories')
+        from props import hist_probe
+        return hist_probe.replay(space, case, seed)
     ctx = space.run_one(case, seed)
     return ctx.fails
+
+
+def _world_space(tier):
+    from props import hist_probe
+    return hist_probe.probe_space('world_histories', ['xxz3', 'ising3', 'fh2', 'bh3', 'linf3', 'mol4'], 2 if tier == 'quick' else 3, None, system=_ISYS)
 
 
 def _op_cases():
@@ -507,7 +513,7 @@ def _chain_cases():
 
 def sig(case):
     if isinstance(case, dict):
-        return case['init']['world'] + ':' + '>'.join(str(o[0]) for o in case['ops'])
+        return case['init']['world'] + ':' + '>'.join(str(o[0]) for o in case['init'].get('prefix', []) + case['ops'])
     return str(case[0]) if case[0] != 'chain' else f'chain:{case[2]}>{case[3]}'
 
 
@@ -517,8 +523,5 @@ def spaces(tier, seed):
               bounds={'operations': sorted(OPS), 'L': [1, 2, 3], 'charge_kinds': ['zero', 'u1'], 'dtypes': ['complex', 'real']}),
         Space('two_step_chains', core.chunked(_chain_cases(), 6), run_case=run_chain_case, sig=sig,
               bounds={'binary_ops': CHAIN_OPS, 'start': ['psi', 'H'], 'L': [1, 2, 3]}),
-        Space('world_histories', [({'world': w}, 2 if tier == 'quick' else 3) for w in ('xxz3', 'ising3', 'fh2', 'bh3', 'linf3', 'mol4')],
-              run_chunk=_hist_chunk, sig=sig,
-              bounds={'worlds': ['xxz3', 'ising3', 'fh2', 'bh3', 'linf3', 'mol4'], 'depth': 2 if tier == 'quick' else 3,
-                      'menu': 'the 28-operation menu of C02', 'invariant': 'non-target objects bit-identical; no shared array memory between objects'}),
+        _world_space(tier),
     ]
